@@ -46,7 +46,8 @@ def assert_stmts(stmts, facts=None, depth=0):
 
         def v(x):
             m = x.get("mac") or []
-            if any(t in ("assert", "assert_eq") for t in m):
+            if any(t in ("assert", "assert_eq", "assert_ne", "panic", "unreachable") for t in m):
+                # the check in any of its forms: `assert!(c, ..)` or `if !c { panic!(..) }`
                 n[0] += 1
             # a private helper of the crate that performs the check counts as the check (two levels)
             if facts is not None and depth < 2 and x.get("k") == "call" and x.get("callee"):
